@@ -107,7 +107,6 @@ package q
 //@   props C15
 //@   safety
 //@   requires p != nil && p.tokens != nil && p.tokens.Position >= 0
-//@   loop 1 invariant pos: p.tokens != nil && p.tokens.Position >= 0
 //@   ensures pos: p.tokens.Position >= 0
 //@   assigns H.q.Tokens.Position, E.*, M.*, H.q.*Expr*, H.q.Statement*, alloc
 //@ func Parser.consumeQuestionMark
@@ -132,7 +131,6 @@ package q
 //@   props C15
 //@   safety
 //@   requires p != nil && p.tokens != nil && p.tokens.Position >= 0
-//@   loop 1 invariant pos: p.tokens != nil && p.tokens.Position >= 0
 //@   ensures pos: p.tokens.Position >= 0
 //@   assigns H.q.Tokens.Position, E.*, M.*, H.q.*Expr*, H.q.Statement*, alloc
 //@ func Parser.consumeObjectWithKeys
